@@ -447,6 +447,9 @@ fn judge(o: &mut Outcome, c: &Case, out: &CaseOut) {
     let key = fw::hash64(format!("{:?}:{}:{}:{}:{}:{}", c.fault, c.k, c.m, c.offset, c.prepared, c.idempotent).as_bytes());
     o.case(key, true);
     o.class(&format!("fault:{:?}", c.fault));
+    if c.fault == Fault::SilentStall && c.k >= 32768 {
+        o.class("stall:every-stream-id-of-the-connection-in-flight");
+    }
     if c.fault == Fault::SilentStall && c.seed % 2 == 0 {
         o.class("stall:with-status-change-down-event");
     }
@@ -601,6 +604,11 @@ fn cases(ctx: &Ctx, rng: &mut Rng) -> Vec<Case> {
                 push(fault, k, m, 0, rng);
             }
         }
+    }
+    // the stall hits a connection ALL of whose stream ids are taken by requests in flight (a keep-alive cannot even
+    // be written then): the callers must still be released
+    for _ in 0..(if quick { 1 } else { 3 }) {
+        v.push(Case { misc: 0, fault: Fault::SilentStall, k: 32768, m: 0, offset: 0, prepared: rng.bool(), idempotent: false, seed: rng.u64() });
     }
     // every other silent-stall case comes with a STATUS_CHANGE DOWN event (decided by the parity of its seed)
     let mut j = 0u64;
@@ -1054,6 +1062,7 @@ pub fn run(ctx: &Ctx) -> Outcome {
         "fault:IdleFin",
         "fault:IdlePartialHeaderFin",
         "stall:with-status-change-down-event",
+        "stall:every-stream-id-of-the-connection-in-flight",
         "inflight:PREPARE",
         "inflight:USE",
         "recovered",
